@@ -11,7 +11,7 @@ ASSUMPTIONS = [
     "claimed for the scanners only: skip_ws_and_comments (through the non-generic parsers extension_marker / assignment / optional_comma), line_comment and block_comment are executed from real MIR - nom's generic combinators included - on every string of <= 4 (thorough 5) symbolic characters over {space, tab, LF, CR, '-', '/', '*', 'a', double quote} (plus a concrete 2-byte character in comments); the reference is an independent z3 automaton for X.680 12.6",
     "that every one of the several hundred combinator call sites of the lexer wraps its tokens in skip_ws_and_comments is not decided (character-level whole-grammar parsing is out of reach); a native job re-lays-out a fixed set of modules token boundary by token boundary as a concrete complement",
     "nom's leaf impls for &str are modelled (no MIR for non-generic dependency functions)",
-    "whole lexer (jobs lexer-*): lexer::asn_module runs from real MIR (dump of /verif/pipe-harness) on 3 fixed module texts; at every token boundary (each white-space gap and each zero-width position next to punctuation) a filler with symbolic characters is put - 1 (2) white-space characters over {space, tab, LF, CR}; ` --c1c2 LF`; ` --c1-- `; `/*c1c2*/` with c over {a, space, double quote, {, -, *, /, E, e-acute}, constrained by the X.680 12.6 automaton to be entirely white-space and comments - and the parsed (header, definitions) value must equal the baseline value except for `comments` fields, on every path; differences are confirmed natively",
+    "whole lexer (jobs lexer-*): lexer::asn_module runs from real MIR (dump of /verif/pipe-harness) on 4 fixed module texts; at every token boundary (each white-space gap and each zero-width position next to punctuation) a filler with symbolic characters is put - 1 (2) white-space characters over {space, tab, LF, CR}; ` --c1c2 LF`; ` --c1-- `; `/*c1c2*/` with c over {a, space, double quote, {, -, *, /, E, e-acute}, constrained by the X.680 12.6 automaton to be entirely white-space and comments - and the parsed (header, definitions) value must equal the baseline value except for `comments` fields, on every path; differences are confirmed natively",
 ]
 
 
@@ -244,6 +244,8 @@ LEX_MODULES = [
     "M DEFINITIONS AUTOMATIC TAGS ::= BEGIN A ::= SEQUENCE { a INTEGER (0..5) OPTIONAL, b BOOLEAN DEFAULT TRUE, ..., c NULL } END",
     "M DEFINITIONS ::= BEGIN IMPORTS T FROM N; B ::= CHOICE { x T, y [3] IMPLICIT OCTET STRING (SIZE (4)) } v INTEGER ::= 5 END",
     "M DEFINITIONS EXPLICIT TAGS ::= BEGIN E ::= ENUMERATED { p(1), q, ..., r } L ::= SEQUENCE OF E s UTF8String ::= \"x\" END",
+    # constraints: extension markers and additions, SIZE, unions, nested parentheses, value references, named numbers
+    "M DEFINITIONS ::= BEGIN W ::= INTEGER (0..7, ..., 8 | 9) N ::= IA5String (SIZE (4, ...)) END",
 ]
 WS = [32, 9, 10, 13]
 CALPHA = [97, 32, 34, 123, 45, 42, 47, 69, 0xE9]
